@@ -81,9 +81,9 @@ def main():
     m = {
      'version': 1,
      'setup_cmd': './check --setup',
-     'hooks': {'guard': 'COVESA_OPEN1722_VERIF', 'enable': 'none needed: no hook is compiled in; static functions of the examples are reached by #include of the unmodified .c file',
+     'hooks': {'guard': 'COVESA_OPEN1722_VERIF', 'enable': 'only C18 scaled queries pass -DCOVESA_OPEN1722_VERIF_MAX_PDU_SIZE=<n> or -DCOVESA_OPEN1722_VERIF_DATA_LEN=<n> when compiling the listener wrapper; every other query builds the unhooked sources; static functions of the examples are reached by #include of the .c file',
                'baseline_off_cmd': 'cmake -S /repo -B /repo/_build -G Ninja -DUNIT_TESTING=ON >/dev/null && cmake --build /repo/_build && ctest --test-dir /repo/_build -j8 --timeout 900',
-               'source_commits': [], 'add_only': True},
+               'source_commits': ['ea0de93 verif hook: COVESA_OPEN1722_VERIF_MAX_PDU_SIZE / _DATA_LEN scale down the listeners receive buffers'], 'add_only': True},
      'engines': [{'name': 'cbmc-runner', 'path': 'engine/core.py', 'serves_properties': sorted(CHECKS),
                   'kind_free_text': 'goto-cc + CBMC 6.11 bounded symbolic model checking of generated harnesses; trace -> native ASan/UBSan replay'}],
      'checks': [],
